@@ -44,8 +44,12 @@ def _even_offsets(f):
     names = {x.id for x in walk_shallow(f.node) if isinstance(x, ast.Name) and isinstance(x.ctx, ast.Store)}
     for nm in names:
         ds = local_defs(f, nm)
-        if ds and all(not isinstance(d, tuple) and (isinstance(d, ast.Constant) or (
-                isinstance(d, ast.Attribute) and isinstance(d.value, ast.Name) and d.value.id == "self")) for d in ds):
+
+        def even(d):
+            if isinstance(d, ast.IfExp):        # a choice between two such values on a mode-independent test
+                return parity.mode_test(d.test, FLAGS) is None and even(d.body) and even(d.orelse)
+            return isinstance(d, ast.Constant) or (isinstance(d, ast.Attribute) and isinstance(d.value, ast.Name) and d.value.id == "self")
+        if ds and all(not isinstance(d, tuple) and even(d) for d in ds):
             out.add(nm)
     return out
 
